@@ -4,12 +4,18 @@ from harness.common import framework
 from harness.props import dev_ctl, c07_cyc, c07
 
 PROP = "C08"
-LEAN_MODULES = ["LunaVerif.Props.C08"] + dev_ctl.CYC_MODULES + c07.STREAM_MODULES
+# Lemmas/C08Mps.lean: the theorems of Props/C08.lean over coreM / stepM / LegalHostM (every control max packet size: the model
+# drv_dev steps and the event-level co-simulation runs at 8 / 16 / 32 / 64)
+LEAN_MODULES = ["LunaVerif.Props.C08"] + dev_ctl.CYC_MODULES + c07.STREAM_MODULES + ["LunaVerif.Lemmas.C08Mps"]
 DRIVER = dev_ctl.DRIVER
 REQUIRED_THEOREMS = ["address_changes_only_on_status_ack", "configuration_changes_only_on_status_ack", "old_address_until_commit", "foreign_ack_does_not_commit", "setup_latched_only_by_setup_transaction", "bus_reset_clears", "commit_returns_to_idle",
                      "handshake_forwarded_only_for_own_in_token", "foreign_handshake_is_invisible",
                      "address_strobe_only_on_gated_ack_in_set_address", "config_strobe_only_on_gated_ack_in_set_configuration",
-                     "address_strobe_returns_to_idle", "cycle_refines_event", "cycle_refines_event_run"]
+                     "address_strobe_returns_to_idle", "cycle_refines_event", "cycle_refines_event_run",
+                     "coreM_ctl", "stepM_ctl", "address_changes_only_on_status_ack_mps", "configuration_changes_only_on_status_ack_mps",
+                     "ack_in_regwrite_state_answers_status_zlp_mps", "old_address_until_commit_mps", "foreign_ack_does_not_commit_mps",
+                     "setup_latched_only_by_setup_transaction_mps", "bus_reset_clears_mps", "commit_returns_to_idle_mps",
+                     "idle_handler_ignores_handshakes_mps", "status_ack_commits_mps"]
 RULE = dev_ctl.RULE + dev_ctl.CYC_RULE + c07.RULE_SYS
 ASSUMPTIONS = dev_ctl.ASSUMPTIONS
 PARTIAL = c07.PARTIAL_STREAMS + dev_ctl.PARTIAL["C08"][len(dev_ctl.PARTIAL_COMMON):]
